@@ -83,7 +83,8 @@ def _validity_intervals(ctx, chk, wl, wflow, mod, gridp, closed, base_name, coln
         return gap_arrays[name] is not None
 
     def tarr_is(name):
-        return colname.get(base_name(ast.Name(id=name, ctx=ast.Load()))) == "epoch"
+        probe = next((x for x in ast.walk(wl.node) if isinstance(x, ast.Name) and x.id == name and isinstance(x.ctx, ast.Load)), None)
+        return colname.get(base_name(probe if probe is not None else ast.Name(id=name, ctx=ast.Load()))) == "epoch"
 
     env = SeqEnv(wflow, gridp, tarr_is, gap_is)
     # start / through variables of the closed test, and the label stored under the mask
@@ -518,6 +519,9 @@ def run(ctx, chk, tier="quick"):
                     v = wflow.def_value(n)
                     if isinstance(v, ast.Call) and (full_call_name(mod, v) or "").split(".")[-1] in ("array", "asarray") and v.args:
                         n = v.args[0]
+                        continue
+                    if isinstance(v, ast.Name):
+                        n = v            # a plain alias
                         continue
                     return n.id
                 if isinstance(n, ast.Call) and (full_call_name(mod, n) or "").split(".")[-1] in ("array", "asarray") and n.args:
